@@ -130,6 +130,10 @@ class Kernel:
                 l2 = self.sx.loops[x[1][1]]
                 if l2.source == src_t and l2.elt == ("elem", l2.id):
                     return ("elem", loop.id)
+                # `[t for a, t in S if F][0]`: the mapped first element is the mapping of the first element
+                if l2.source == src_t and not mentions(l2.elt, lambda y: y[0] in ("acc", "compr", "res") or (y[0] == "elem" and y[1] != l2.id)) \
+                        and mentions(l2.elt, lambda y: y == ("elem", l2.id)):
+                    return subst(l2.elt, lambda y: ("elem", loop.id) if y == ("elem", l2.id) else None)
             return None
         r = subst(init, f)
         if r != init:
